@@ -420,6 +420,50 @@ theorem scenario_half_idle (pre c u reply : Bytes) :
      (scenario .halfClose pre c u reply .halfIdle).torn = false) := by
   simp [scenario, closeHistory, run, step, Tun.init, serverClose]
 
+/-! ## Listener timeouts (`conn` wrapper of `tcp.Server`) -/
+
+/-- With the wrapper as coded (the deadline is armed by every call) no write of a tunnel ever times out unless it
+is itself blocked for a whole timeout — whatever the times at which the writes are issued, from whatever state,
+however long the tunnel lives. This discharges, for the wrapper, the assumption of the tunnel theorems under
+`wt=`/`rt=`: "no single read or write blocks for a whole timeout" is the *only* way to lose the tunnel to a
+timeout. -/
+theorem conn_write_never_times_out (wt : Nat) (hwt : 0 < wt) (c : ConnW) (ws : List (Nat × Nat))
+    (h : ∀ w ∈ ws, w.2 < wt) :
+    ∀ ok ∈ ConnW.writes .everyCall wt c ws, ok = true := by
+  induction ws generalizing c with
+  | nil => intro ok hok; simp [ConnW.writes] at hok
+  | cons w r ih =>
+    obtain ⟨t, d⟩ := w
+    intro ok hok
+    simp only [ConnW.writes, List.mem_cons] at hok
+    rcases hok with rfl | hok
+    · have hw : d < wt := h (t, d) (by simp)
+      have h0 : wt ≠ 0 := by omega
+      simp only [ConnW.write, h0, if_false]
+      simp; omega
+    · exact ih _ (fun w hw => h w (by simp [hw])) ok hok
+
+/-- Without a configured timeout the wrapper arms nothing: no write of a fresh connection times out. -/
+theorem conn_write_no_timeout_configured (a : Arming) (c : ConnW) (hc : c.deadline = none) (ws : List (Nat × Nat)) :
+    ∀ ok ∈ ConnW.writes a 0 c ws, ok = true := by
+  induction ws generalizing c with
+  | nil => intro ok hok; simp [ConnW.writes] at hok
+  | cons w r ih =>
+    obtain ⟨t, d⟩ := w
+    intro ok hok
+    simp only [ConnW.writes, List.mem_cons] at hok
+    rcases hok with rfl | hok
+    · simp [ConnW.write, hc]
+    · exact ih _ (by simp [ConnW.write, hc]) ok hok
+
+example : ConnW.writes .everyCall 400 {} [(1000, 0), (1420, 399), (5000, 10)] = [true, true, true] := by decide
+
+/-- The counter-model (seeded change m10, replayed on the real code by the class `*-timeouts`): arming "only after a
+quarter of the timeout" against the remembered *deadline* lets a write that does not block at all fail, 20 ticks
+after the first deadline has passed. -/
+theorem lazy_arming_times_out_unblocked_write :
+    ConnW.writes .lazy 400 {} [(1000, 0), (1420, 0)] = [true, false] := by decide
+
 /-! ## PROXY protocol header -/
 
 /-- The line `WriteProxyHeader` writes, as coded: `PROXY`, the family chosen from the *client* address
